@@ -273,6 +273,34 @@ def check_property(prop, tier, seed, rebaseline=False, jobs=None):
             for fn in hr_["functions"]:
                 fail_by_fn.setdefault(fn, []).append(p)
 
+    # ---- escalation: an obligation that is discharged on the unchanged tree is not discharged now and the quick bounded scope
+    # found nothing: re-run the harnesses of that function at their escalated scope (longer sequences, thorough bounds)
+    esc_names = []
+    for key, bad in undecided:
+        short = key.split(":")[1].split("@")[0]
+        if any(short in fn or fn in key for fn in fail_by_fn):
+            continue
+        if not any(oid in base_proved for oid in bad):
+            continue
+        for h in harnesses:
+            if any(fn in short or short.endswith(fn) or fn.endswith(short.split(".")[-1]) for fn in h.functions) and h.name not in esc_names:
+                esc_names.append(h.name)
+    if esc_names:
+        with mp.get_context("fork").Pool(jobs) as pool:
+            esc = pool.map(run_one_harness, [(prop, n, "escalate", seed, k, 16) for n in esc_names for k in range(16)], chunksize=1)
+        for hr_ in esc:
+            evaluations += hr_["evaluations"]
+            for f in hr_["failures"]:
+                if f.get("cls") in known_classes or f.get("cls") == "__crash__":
+                    continue
+                p = write_replay(prop, {"property": prop, "kind": "input", "harness": hr_["harness"], "input": f.get("input"),
+                                        "clause": f.get("clause"), "expected": f.get("expected"), "observed": f.get("observed"),
+                                        "functions": hr_["functions"], "found_by": "escalated bounded scope after a regressed obligation"})
+                violations.append((p, f))
+                for fn in hr_["functions"]:
+                    fail_by_fn.setdefault(fn, []).append(p)
+        lines.append(f"ESCALATED harnesses={esc_names} (regressed obligation, nothing found at the quick scope)")
+
     # ---- undecided / refuted obligations: concrete input from the bounded harness, else the rule of DESIGN §2.9
     for key, bad in undecided:
         short = key.split(":")[1]
